@@ -359,7 +359,7 @@ RECURSIVE CatRefs(_, _)
 CatRefs(rs, i) == IF i > Len(rs) THEN "" ELSE RefSeg(rs[i]).d \o CatRefs(rs, i + 1)
 
 (* commitBlock up to `go PutB(block)` *)
-CommitStart ==
+CommitStartX(syncSkip) ==
     /\ fg.pc = "flush" /\ fg.todo # <<>>
     /\ \E ti \in 1 .. Len(fg.todo) :        \* the commitBlock goroutines of one flush run concurrently: any order
        LET rs == fg.todo[ti]
@@ -369,7 +369,7 @@ CommitStart ==
            offs == Offsets(rs, 1, 0) IN
        \/ \* async: another flush of one of the segments is unfinished -> skip the block;
           \* sync after an error: the context is cancelled, the block may be skipped
-          /\ (~fg.sync /\ busy) \/ (fg.sync /\ fg.err)
+          /\ (~fg.sync /\ busy) \/ (fg.sync /\ fg.err /\ syncSkip)
           /\ fg' = [fg EXCEPT !.todo = rest]
           /\ UNCHANGED <<segs, puts, thr, nputs>>
        \/ /\ fg.sync \/ ~busy
@@ -386,6 +386,8 @@ CommitStart ==
           /\ thr' = thr + 1 /\ nputs' = nputs + 1
           /\ fg' = [fg EXCEPT !.todo = rest, !.mine = @ \cup {t}]
     /\ UNCHANGED <<cvars, cfg, size, ptr, blocks, nops, hazard, saved, hist>>
+
+CommitStart == CommitStartX(TRUE)
 
 FlushEnd ==
     /\ fg.pc = "flush" /\ fg.todo = <<>>
@@ -504,14 +506,36 @@ TypeOK == /\ fg.pc \in {"idle", "wseek", "write", "prune", "wpost", "flush"}
 Drained == Idle /\ puts = {}
 \* a reduced alphabet of foreground calls: what matters for a schedule is which call falls between
 \* the start and the completion of which Keep write
+\* Only REPLAYABLE schedules are emitted: a driver without hooks in the code controls nothing but
+\* when a gated Keep write returns.  So (a) a foreground call runs on while it can (Keep writes
+\* return only while the foreground is idle or blocked on the throttle / on its own writes),
+\* (b) once a write has returned, its goroutine re-locks the file as soon as the lock is free,
+\* before the next foreground call or completion, (c) the commitBlock goroutines of a flush have
+\* passed their cancellation check before any of their writes returns.  (The exhaustive MC
+\* configurations keep all the other interleavings.)
+NoFinishPending == \A p \in puts : p.st = "fly"
+FinishPossible == \E p \in puts : /\ p.st \in {"ok", "fail"}
+                                   /\ ((p.st = "fail" /\ p.kind = "async") \/ LockFree(p.refs[p.next].f))
+CommitPossible ==
+    fg.pc = "flush" /\ \E ti \in 1 .. Len(fg.todo) :
+        LET rs == fg.todo[ti]
+            busy == \E i \in 1 .. Len(rs) : RefSeg(rs[i]).fl # 0 /\ Live(RefSeg(rs[i]).fl) IN
+        (~fg.sync /\ busy) \/ ((fg.sync \/ ~busy) /\ thr < cfg.W)
+FgCanStep ==
+    \/ fg.pc \in {"wseek", "write", "wpost"}
+    \/ fg.pc = "prune" /\ (PruneCand(fg.f) = {} \/ thr < cfg.W)
+    \/ CommitPossible
+    \/ fg.pc = "flush" /\ fg.todo = <<>> /\ (fg.sync => \A p \in puts : p.tok \notin fg.mine)
 GenNext ==
-    \/ \E h \in Hs : SeekOp(h, 0)
-    \/ \E h \in Hs, n \in {0, 1} : TruncOp(h, n)
-    \/ \E h \in Hs, d \in WriteDatas : WriteStart(h, d)
+    \/ /\ NoFinishPending
+       /\ \/ \E h \in Hs : SeekOp(h, 0)
+          \/ \E h \in Hs, n \in {0, 1} : TruncOp(h, n)
+          \/ \E h \in Hs, d \in WriteDatas : WriteStart(h, d)
+          \/ \E sync \in BOOLEAN : FlushStart(sync, TRUE)
     \/ WriteSeek \/ WriteIter \/ PruneStep \/ WritePost \/ WriteEnd
-    \/ \E sync \in BOOLEAN : FlushStart(sync, TRUE)
-    \/ CommitStart \/ FlushEnd
-    \/ \E t \in 1 .. (MaxPuts + 2), ok \in BOOLEAN : PutDone(t, ok)
+    \/ CommitStartX(FALSE) \/ FlushEnd
+    \/ /\ ~FgCanStep /\ ~FinishPossible
+       /\ \E t \in 1 .. (MaxPuts + 2), ok \in BOOLEAN : PutDone(t, ok)
     \/ \E t \in 1 .. (MaxPuts + 2) : BgFinish(t)
 GenSpec == Init /\ [][GenNext]_vars
 HasPut == \E i \in 1 .. Len(hist) : hist[i].op = "put"
